@@ -57,6 +57,8 @@ def run(F, R, ctx):
     jitmodel.tier_error_agreement_rule(F, R, "C02.q")
     from . import c03
     c03.jit_move_rule(F, R, "C02.m")
+    trampoline_decision_rule(F, R)
+    installer_agreement_rule(F, R)
 
 
 def _run(F, R, ctx):
@@ -224,3 +226,91 @@ def int_tag_rule(F, R):
                    "a non-fixnum — the JIT-compiled function aborts the host where the interpreter returns a value" % (
                        fn.short(), names or "(dynamic name)", line), fn.loc(line), sample={"helper": names})
     R.floor("C02.i", "Int-tagged values in the JIT translator", n, 1)
+
+
+def trampoline_decision_rule(F, R, rid="C02.t"):
+    from . import c09
+    R.rule(rid, "the JIT's runtime helpers decide whether to run a callee natively from the frame depth *at the call*: a depth "
+                "predicate of the jit module (a bool function of VmCore that only reads stack_frames.len(): should_trampoline) "
+                "is never evaluated after the helper installed the callee's frame (a call that pushes a StackFrame, through "
+                "VmCore methods two levels deep). nc: the check emitted before the call (check_callable*) evaluates the same "
+                "predicate at the call depth and leaves the caller in native mode; a helper that asks again after the push "
+                "disagrees with it at the threshold, does not run the callee and hands the native caller #<void> with the "
+                "callee's frame still installed — a JIT-on / JIT-off difference at one particular recursion depth")
+    preds = set()
+    for n, fn in F.fns.items():
+        if not n.startswith("steel::steel_vm::vm::jit::") or fn.d["out"] != "bool" or len(fn.blocks) > 12:
+            continue
+        reads = any(e[1] == "SteelThread" and e[2] == "stack_frames" for _, _, e in fn.events("fld"))
+        writes = any(("w" in e[3] or "m" in e[3]) and e[1] == "SteelThread" for _, _, e in fn.events("fld"))
+        if reads and not writes and any(re.search(r"Vec<T,A>\}::len$", b["callee"]) for _, b in fn.calls()):
+            preds.add(n)
+    if not preds:
+        raise CheckError("anchor lost: no frame-depth predicate in steel_vm::vm::jit")
+    pf = {n for n, f in F.fns.items() if n.startswith("steel::steel_vm::") and c09.push_blocks(f)}
+    memo = {}
+
+    def installs(c, depth=2):
+        if c in pf:
+            return True
+        if depth == 0 or c not in F.fns or not re.search(r"\{impl VmCore\}::|steel_vm::vm::jit::", c):
+            return False
+        k = (c, depth)
+        if k not in memo:
+            memo[k] = False
+            memo[k] = any(installs(d, depth - 1) for d in F.callees(F.fns[c], expand_unresolved=False, closures=False))
+        return memo[k]
+    n = 0
+    for name, fn in sorted(F.fns.items()):
+        if not name.startswith("steel::steel_vm::vm::jit::") or name in preds:
+            continue
+        tests = [i for i, b in fn.calls() if b["callee"] in preds]
+        if not tests:
+            continue
+        n += 1
+        inst = [i for i, b in fn.calls() if b["callee"] not in preds and installs(b["callee"])]
+        bad = [(p, t) for p in inst for t in tests if t in fn.reachable_from(fn.succ(p))]
+        R.inst(rid, "%s / trampoline decision before the frame is installed" % fn.short(), not bad,
+               "%s installs the callee's frame (%s, line %s) and evaluates the frame-depth predicate %s afterwards (line %s): "
+               "the predicate now sees one frame more than the check made before the call, and the two disagree at the "
+               "threshold" % (fn.short(), lib.split_path(fn.blocks[bad[0][0]]["callee"])[-1] if bad else "", fn.blocks[bad[0][0]]["line"] if bad else "",
+                              lib.split_path(fn.blocks[bad[0][1]]["callee"])[-1] if bad else "", fn.blocks[bad[0][1]]["line"] if bad else ""),
+               fn.loc(fn.blocks[bad[0][1]]["line"] if bad else None), sample=n <= 3)
+    R.floor(rid, "runtime helpers that evaluate a frame-depth predicate", n, 20)
+
+
+def installer_agreement_rule(F, R, rid="C02.u"):
+    R.rule(rid, "a JIT runtime helper installs the callee's frame the same way on every branch: the frame installers of VmCore "
+                "come in a checking form (reaches adjust_stack_for_multi_arity / raises ArityMismatch: rest arguments are "
+                "collected, a wrong count is an error) and a trusting form (`…_no_arity`); a helper that uses the checking form "
+                "on one branch (so the call site's count was not verified at compile time) does not use the trusting form on "
+                "another (sibling agreement between the native-callee branch and the interpreter fallbacks). nc: otherwise the "
+                "result of a call depends on whether the callee happened to be compiled / on the frame depth — "
+                "`(many x 2 … 11)` with a rest-argument callee answered (2 3 10 11) from compiled code")
+    inst = [fn for n, fn in F.fns.items() if re.search(r"\{impl VmCore\}::handle_function_call_closure_jit\w*$", n)]
+    if len(inst) < 2:
+        raise CheckError("anchor lost: VmCore's JIT frame installers")
+    checking, trusting = set(), set()
+    for fn in inst:
+        deep = [b["callee"] for _, b in lib.deep_calls(F, fn, depth=2)]
+        arity = any(re.search(r"adjust_stack_for_multi_arity$", c) for c in deep) or \
+            any(e[0] == "agg" and e[1] == "ErrorKind" and e[2] == "ArityMismatch" for _, e in lib.deep_events(F, fn, "agg", depth=2))
+        (checking if arity else trusting).add(fn.name)
+    if not checking or not trusting:
+        raise CheckError("anchor lost: no checking / trusting pair among the JIT frame installers (%d / %d)" % (len(checking), len(trusting)))
+    n = 0
+    for name, fn in sorted(F.fns.items()):
+        if not name.startswith("steel::steel_vm::vm::jit::"):
+            continue
+        c = [(i, b) for i, b in fn.calls() if b["callee"] in checking]
+        t = [(i, b) for i, b in fn.calls() if b["callee"] in trusting]
+        if not c:
+            continue
+        n += 1
+        R.inst(rid, "%s / one way of installing the callee's frame" % fn.short(), not t,
+               "%s installs the callee's frame with the arity-checking %s (line %s) on one branch and with the trusting %s "
+               "(line %s) on another: on that branch rest arguments are not collected and a wrong argument count is not "
+               "reported" % (fn.short(), lib.split_path(c[0][1]["callee"])[-1], c[0][1]["line"],
+                             lib.split_path(t[0][1]["callee"])[-1] if t else "", t[0][1]["line"] if t else ""),
+               fn.loc(t[0][1]["line"] if t else None), sample=n <= 3)
+    R.floor(rid, "helpers using the arity-checking installer", n, 2)
